@@ -180,6 +180,10 @@ Proof. intros. destruct t. reflexivity. Qed.
 Theorem unsigned_ignores_programs : forall t ps, encode_unsigned (set_programs t ps) = encode_unsigned t.
 Proof. intros. destruct t. reflexivity. Qed.
 
+Theorem serialization_splits : forall t ps,
+  encode_tx (set_programs t ps) = encode_unsigned t ++ encode_programs ps.
+Proof. intros t ps. rewrite encode_tx_split, unsigned_ignores_programs. destruct t; reflexivity. Qed.
+
 (* ---- versions 1..8 are not representable: they are written like version 0 *)
 Definition ambiguous_tx : tx := mkTx 3 2 0 VUnit [] [] [] 0 [].
 Lemma version_type_ambiguity :
